@@ -71,7 +71,7 @@ pub const YEARS: [i32; 58] = [
     i32::MAX,
 ];
 
-pub const CORNERS: [(u8, u8, u8, u32); 12] = [
+pub const CORNERS: [(u8, u8, u8, u32); 16] = [
     (0, 0, 0, 0),
     (23, 59, 59, 999_999_999),
     (23, 59, 60, 0),
@@ -84,6 +84,11 @@ pub const CORNERS: [(u8, u8, u8, u32); 12] = [
     (255, 255, 255, u32::MAX),
     (23, 59, 0, 999_999_999),
     (0, 0, 59, 1),
+    // second 60 away from 23:59 (accepted at any minute; at the top of the range only 23:59:60 is out)
+    (23, 0, 60, 7),
+    (23, 58, 60, 0),
+    (0, 0, 60, 1),
+    (22, 59, 60, 0),
 ];
 
 fn excluded_max(y: i32, mo: u8, d: u8, h: u8, mi: u8, s: u8) -> bool {
@@ -382,7 +387,7 @@ pub fn run(ctx: &Ctx) -> Report {
             l.distinct_enumerated += n;
         });
         rep.exhaustive = true;
-        rep.notes.push("exhaustive for (year mod 400) x month 0..=13 x day 0..=32 x 12 time corners, and for the day-in-cycle quotient; not exhaustive over 2^32 years x 86401 seconds".into());
+        rep.notes.push("exhaustive for (year mod 400) x month 0..=13 x day 0..=32 x 16 time corners, and for the day-in-cycle quotient; not exhaustive over 2^32 years x 86401 seconds".into());
     }
     rep
 }
